@@ -8,7 +8,7 @@ TRUSTED_EXTRA = ["Model/Value.v models environment.rs (LexicalScope) and ValueRe
 
 
 def explore(ctx):
-    n = 300 if ctx.quick else 10000
+    n = 900 if ctx.quick else 20000
     cases = []
     tot = {}
     for k in range(n):
